@@ -181,6 +181,20 @@ func (panickingArray) EncodeArray(enc log.Encoder) {
 	panic("encoder gave up")
 }
 
+// drainArray: a custom array encoder over a source that is consumed by reading it.
+type drainArray struct {
+	vals  []int64
+	calls int
+}
+
+func (d *drainArray) EncodeArray(enc log.Encoder) {
+	d.calls++
+	for _, v := range d.vals {
+		enc.AppendInt64(v)
+	}
+	d.vals = nil
+}
+
 type ctxKey int
 
 func c0708Worker(w *W) {
@@ -229,6 +243,44 @@ func c0708Worker(w *W) {
 				catch(func() { (&log.TextLayout{BaseLayout: log.BaseLayout{FileLineLength: 48}}).ToBytes(bad) })
 				catch(func() { (&log.JSONLayout{BaseLayout: log.BaseLayout{FileLineLength: 48}}).ToBytes(bad) })
 				w.Count("recovered_encoder_panics", 2)
+			}
+			if !isC08 && i%50 == 25 {
+				// a custom array encoder over a source that can be read ONCE (a queue being drained, an iterator): the event is
+				// formatted once, by one layout, so the line carries what the source held - also when the layout starts from an
+				// empty buffer pool (first events of a process, after two garbage collections)
+				for _, cold := range []bool{true, false} {
+					if cold {
+						runtime.GC()
+						runtime.GC()
+					}
+					q := &drainArray{vals: []int64{int64(i), -1, 1 << 62}}
+					e := &log.Event{Level: log.InfoLevel, Time: ev.Time, File: "d.go", Line: 7, Tag: "abc",
+						Fields: []log.Field{log.Int("before", 1), log.Array("drained", q), log.Int("after", 2)}}
+					var dl []byte
+					if pv, _ := catch(func() { dl = (&log.JSONLayout{BaseLayout: log.BaseLayout{FileLineLength: 48}}).ToBytes(e) }); pv != nil {
+						w.Violate("C07:json-layout-panic", fmt.Sprintf("JSONLayout.ToBytes panicked on an event with a custom array encoder: %v", pv), gc)
+						continue
+					}
+					want := fmt.Sprintf("[%d,-1,%d]", i, int64(1)<<62)
+					got := "<member missing>"
+					if v, err := strictJSONParse(bytes.TrimRight(dl, "\n")); err == nil {
+						if o, ok := v.(*jObject); ok {
+							for k, key := range o.Keys {
+								if key == "drained" {
+									got = o.RawVals[k]
+								}
+							}
+						}
+					} else {
+						got = "<invalid JSON: " + err.Error() + ">"
+					}
+					w.Eval(1)
+					if got != want {
+						w.Violate("C07:value:custom-array", fmt.Sprintf("an array field whose encoder reads its source once (cold buffer pool: %v): the line carries %s, the source held %s; the encoder was invoked %d time(s) for one formatted line\nline: %s", cold, got, want, q.calls, trunc(string(dl), 400)), gc)
+					} else {
+						w.Count("single_pass_array_encoders_checked", 1)
+					}
+				}
 			}
 			sp := &evSpec{levelName: ev.Level.Name(), time: ev.Time.Format("2006-01-02T15:04:05.000"), fileLine: expectedFileLine(ev.File, ev.Line, W), tag: ev.Tag, ctx: ev.CtxString,
 				members: append(append([]xmember{}, ev.ctxM...), ev.fM...)}
